@@ -532,3 +532,65 @@ fn c09_rle16_mega_set_fg_fgbg() {
     kani::cover!(m & 0xf == 0x6 && fg == 0x1234, "sample");
     forget(r);
 }
+
+/// MEGA_MEGA BG_RUN / FG_RUN / COLOR_IMAGE on the first scanline (16-bit counts)
+#[kani::proof]
+#[kani::unwind(14)]
+fn c09_rle16_mega_bg_fg_image() {
+    let p: [u16; 2] = kani::any();
+    let input = [0xF0u8, 2, 0, 0xF1, 1, 0, 0xF4, 2, 0, p[0] as u8, (p[0] >> 8) as u8, p[1] as u8, (p[1] >> 8) as u8];
+    let mut out = [0u16; 5];
+    let r = rle_16_decompress(&input, 5, 1, &mut out);
+    assert!(r.is_ok(), "decodes");
+    assert!(out[0] == 0 && out[1] == 0, "MEGA_MEGA BG_RUN on the first scanline paints black");
+    assert!(out[2] == 0xffff, "MEGA_MEGA FG_RUN on the first scanline paints the foreground");
+    assert!(out[3] == p[0] && out[4] == p[1], "MEGA_MEGA COLOR_IMAGE carries its pixels verbatim");
+    kani::cover!(p[0] != p[1], "distinct");
+    forget(r);
+}
+
+/// long regular form (count field 0, extra byte + 32): COLOR_RUN of 33 on a 33-pixel scanline, through the
+/// 8-way unrolled loop and its tail
+#[kani::proof]
+#[kani::unwind(40)]
+fn c09_rle16_long_regular_color_run() {
+    let c: u16 = kani::any();
+    let input = [0x60u8, 0x01, c as u8, (c >> 8) as u8];
+    let mut out = [0u16; 33];
+    let r = rle_16_decompress(&input, 33, 1, &mut out);
+    assert!(r.is_ok(), "decodes");
+    let mut i = 0;
+    while i < 33 { assert!(out[i] == c, "run length = extra byte + 32"); i += 1; }
+    kani::cover!(c == 0x8001, "sample");
+    forget(r);
+}
+
+/// long lite form (count field 0, extra byte + 16): SET_FG_FG_RUN of 17 on the first scanline
+#[kani::proof]
+#[kani::unwind(24)]
+fn c09_rle16_long_lite_set_fg_run() {
+    let fg: u16 = kani::any();
+    let input = [0xC0u8, 0x01, fg as u8, (fg >> 8) as u8];
+    let mut out = [0u16; 17];
+    let r = rle_16_decompress(&input, 17, 1, &mut out);
+    assert!(r.is_ok(), "decodes");
+    let mut i = 0;
+    while i < 17 { assert!(out[i] == fg, "run length = extra byte + 16, first scanline paints fgPel"); i += 1; }
+    kani::cover!(fg == 0x00ff, "sample");
+    forget(r);
+}
+
+/// FG_RUN that crosses a scanline end on later scanlines keeps xor-ing with the line above
+#[kani::proof]
+#[kani::unwind(14)]
+fn c09_rle16_fg_run_cross_line() {
+    let a: [u16; 2] = kani::any();
+    let input = [0x82u8, a[0] as u8, (a[0] >> 8) as u8, a[1] as u8, (a[1] >> 8) as u8, 0x24];
+    let mut out = [0u16; 6];
+    let r = rle_16_decompress(&input, 2, 3, &mut out);
+    assert!(r.is_ok(), "decodes");
+    assert!(out[2] == a[0] ^ 0xffff && out[3] == a[1] ^ 0xffff, "second scanline = first xor white");
+    assert!(out[0] == a[0] && out[1] == a[1], "third scanline = second xor white = first");
+    kani::cover!(a[0] != a[1], "distinct");
+    forget(r);
+}
